@@ -15,6 +15,17 @@ def _report(run, rejected, res):
         clause = extra[0] if extra else "?"
         if not ev.get("probe_ok", True):
             raise core.ToolError(f"probe serializer failed where serde_json succeeded: {ev['hex']}")
+        if ev.get("e") == "cli":
+            hb = dp.header_bits(ev["hex"]) if ev.get("hex") else {"df": -1, "tc": -1, "subtype": -1, "first3": -1}
+            sig = {"where": "decode1090", "clause": clause, "df": hb["df"]}
+            if clause in ("serialises", "crash"):
+                sig.update(tc=hb["tc"], subtype=hb["subtype"])
+            per[("decode1090:" + clause, hb["df"], hb["tc"], hb["subtype"])] += 1
+            n_sig[json.dumps(sig, sort_keys=True)] += 1
+            run.report(sig, {"frame_hex": ev.get("hex", ""), "where": "decode1090 --input file.jsonl --deduplication 0",
+                             "clause": clause, "line": ev.get("line"), "printed": ev.get("text", ""),
+                             "recorded": ev if n_sig[json.dumps(sig, sort_keys=True)] <= 5 else {}})
+            continue
         hb = dp.header_bits(ev["hex"])
         # which variant serde meets is decided by DF / type code / subtype; the identity entries by the DF
         if clause == "serialises":
@@ -47,9 +58,11 @@ def check(run):
     st = res["stats"]
     # position-attached records (cpr::decode_positions on timed records), same clauses
     rej_pos, pos = dp.position_records(run, run.tier == "thorough")
-    per = _report(run, rejected + rej_pos, res)
+    # the decode1090 program on a jsonl file of the basic fills of every shape (and undecodable frames)
+    rej_cli, cli = dp.decode1090_segment(run, res)
+    per = _report(run, rejected + rej_pos + rej_cli, res)
     run.cov.update({
-        "evaluations": n_events + pos["validated"],
+        "evaluations": n_events + pos["validated"] + cli["validated"],
         "distinct_nontrivial": st["distinct_accepted"],
         "rule": "the decode pass of C01 (every shape of the TLC-enumerated shape space x fills x field extremes"
                 + (" x 16-bit windows of the MB field of the Comm-B shapes" if res["tier"]["windows"] else "")
@@ -72,6 +85,9 @@ def check(run):
         "position_records": {k: v for k, v in pos.items() if k != "samples"},
         "position_record_samples": pos.get("samples", [])[:2],
         "rejected_position_records": len(rej_pos),
+        "decode1090": {k: v for k, v in cli.items() if k != "samples"},
+        "decode1090_samples": cli.get("samples", [])[:2],
+        "rejected_decode1090_records": len(rej_cli),
         "rejected_events": len(rejected),
         "rejected_per_clause_df_tc_subtype": {"/".join(map(str, k)): v for k, v in sorted(per.items())},
         "traces_validated_against_impl": len(results),
@@ -87,6 +103,8 @@ def check(run):
         "finite: NaN/Infinity tokens in the text, plus every float of the serialised struct re-read by the probe serializer "
         "(serde_json writes non-finite floats as null); Option::None is not a number and is never flagged",
         "the JSON lexer of the harness is trusted",
+        "decode1090 segment: the unmodified binary, jsonl input, --deduplication 0; positional arguments (which unwrap by "
+        "design of the CLI) are not exercised; inputs the library rejects need not produce a line but must not kill the program",
         "position-attached records: a panic of cpr::decode_positions is counted (decode_positions_panics) but is C04/C06's "
         "business; the records are judged as they are after the call",
     ]
